@@ -38,6 +38,76 @@ func registeredBuiltins(p *Prog) (map[string]types.Type, []string) {
 	if fn == nil {
 		return out, []string{"NewInterpreter not found"}
 	}
+	// table-driven registration: a local array of {name, implementation} records and one Define in a loop
+	type rec struct {
+		name string
+		typ  types.Type
+	}
+	records := map[ssa.Value]*rec{} // element address → record
+	recOf := func(elem ssa.Value) *rec {
+		if records[elem] == nil {
+			records[elem] = &rec{}
+		}
+		return records[elem]
+	}
+	instrsOf(fn, func(in ssa.Instruction) {
+		st, ok := in.(*ssa.Store)
+		if !ok {
+			return
+		}
+		fa, ok := st.Addr.(*ssa.FieldAddr)
+		if !ok {
+			return
+		}
+		var elem ssa.Value
+		switch x := fa.X.(type) {
+		case *ssa.IndexAddr:
+			elem = x
+		case *ssa.Alloc:
+			if _, isStruct := derefT(x.Type()).Underlying().(*types.Struct); isStruct && typeStr(derefT(x.Type())) != "interpreter.Interpreter" {
+				elem = x
+			}
+		}
+		if elem == nil {
+			return
+		}
+		if k, ok := st.Val.(*ssa.Const); ok && k.Value != nil && k.Value.Kind().String() == "String" {
+			recOf(elem).name, _ = unquoteGo(k.Value.ExactString())
+		}
+		if mi, ok := st.Val.(*ssa.MakeInterface); ok {
+			recOf(elem).typ = mi.X.Type()
+		}
+	})
+	tableDefine := false
+	instrsOf(fn, func(in ssa.Instruction) {
+		call, ok := in.(*ssa.Call)
+		if !ok {
+			return
+		}
+		c := call.Call.StaticCallee()
+		if c == nil || c.Name() != "Define" || len(call.Call.Args) != 3 {
+			return
+		}
+		// Define(elem.name, elem.function) with both loads from the same table element
+		d1, d2 := describe(call.Call.Args[1]), describe(call.Call.Args[2])
+		if i1, i2 := strings.LastIndex(d1, "."), strings.LastIndex(d2, "."); i1 > 0 && i2 > 0 && d1[:i1] == d2[:i2] {
+			if _, isConst := call.Call.Args[1].(*ssa.Const); !isConst {
+				tableDefine = true
+			}
+		}
+	})
+	if tableDefine {
+		for _, r := range records {
+			if r.name == "" || r.typ == nil {
+				problems = append(problems, "incomplete registration record in the built-in table")
+				continue
+			}
+			if _, dup := out[r.name]; dup {
+				problems = append(problems, "name "+r.name+" registered twice")
+			}
+			out[r.name] = r.typ
+		}
+	}
 	instrsOf(fn, func(in ssa.Instruction) {
 		call, ok := in.(*ssa.Call)
 		if !ok {
@@ -49,10 +119,15 @@ func registeredBuiltins(p *Prog) (map[string]types.Type, []string) {
 		}
 		k, ok := call.Call.Args[1].(*ssa.Const)
 		if !ok || k.Value == nil {
-			problems = append(problems, "Define with a non-constant name at "+p.InstrPos(in))
+			if !tableDefine {
+				problems = append(problems, "Define with a non-constant name at "+p.InstrPos(in))
+			}
 			return
 		}
 		name := strings.Trim(k.Value.ExactString(), `"`)
+		if uq, err := unquoteGo(k.Value.ExactString()); err == nil {
+			name = uq
+		}
 		mi, ok := call.Call.Args[2].(*ssa.MakeInterface)
 		if !ok {
 			problems = append(problems, "Define("+name+") with a value of unknown type")
